@@ -8,10 +8,14 @@
 //     an independent std::ifstream sees the new bytes before this harness flushes the writer (vis=);
 //   * for a read: the values the API returns.
 // The Lean model (lean/StirVerif/C02/Model.lean) answers the same lines from its transcription of get_offset.
+// Streams with an integer on-disk type get a scale factor of 1, 1/2 or 3 (values are multiples of it); the model keeps the
+// on-disk numbers and applies round(value/scale) and number*scale itself.
 // ORACLE (property statement evaluated on the implementation): a reference std::map<bin,float> is updated
 // with the *meaning* of every write; every read, a full sweep through a randomly chosen other path after
 // every write, the visibility to a second reader and the header round trip are compared with it; requests
 // outside the index ranges must throw and leave everything unchanged.
+// Extension (scale factor, bulk arithmetic, get_subset, copies from differently laid-out sources, header variants,
+// out-of-range container setters): see the block comment above run_history_ext().
 // Usage: c02_projdata <seed> <quick|thorough> <opsfile> <implfile>
 #include "stir_fixtures.h"
 #include "common.h"
@@ -35,6 +39,9 @@
 #include "stir/RadionuclideDB.h"
 #include "stir/recon_buildblock/DataSymmetriesForBins_PET_CartesianGrid.h"
 #include "stir/DiscretisedDensity.h"
+#include "stir/ProjDataInfoSubsetByView.h"
+#include "stir/ProjDataInfoCylindricalArcCorr.h"
+#include "stir/IO/interfile.h"
 #include <algorithm>
 #include <array>
 #include <cstring>
@@ -49,6 +56,7 @@ typedef std::array<int, 5> Key; // seg, view, ax, tang, tof
 typedef std::vector<unsigned char> Bytes;
 
 static const int GUARD = 32;
+static const int PAD = -1000000; // pseudo segment number: a padding element (expected value 0)
 
 // ProjDataInterfile with access to its (protected) stream, only to flush it from the harness
 struct InterfileProbe : public ProjDataInterfile
@@ -57,6 +65,8 @@ struct InterfileProbe : public ProjDataInterfile
   std::iostream& stream() { return *sino_stream; }
 };
 
+static bool g_sbs = true; // set by probe_bin_scale()
+static bool g_chkseg_mem = true, g_chkseg_pdfs = true; // set by probe_segment_size_check()
 static FILE *g_ops, *g_out, *g_orc;
 static long g_checks = 0, g_fails = 0;
 static std::set<std::string> g_known_emitted;
@@ -89,11 +99,27 @@ known(const std::string& key, const std::string& text, const std::string& first_
         "tangential position max+1 lands on the next view",                                                                       \
         ctx)
 
+#define KNOWN_BINSCALE(ctx)                                                                                                       \
+  known("scale:set_bin_value-ignores-scale-factor",                                                                               \
+        "ProjDataFromStream::set_bin_value writes the value with scale 1 although get_bin_value (and every other get_*/set_*) "  \
+        "applies the stream's scale_factor: on a stream with scale factor != 1 a value written through the single-bin path is "  \
+        "read back multiplied by the scale factor (or rounded to a multiple of it) through every path. Repro: ProjDataFromStream " \
+        "over a stringstream, on-disk type short, scale_factor 3: set_bin_value(Bin(0,1,1,0,0,6.f)); get_bin_value of the same "  \
+        "bin returns 18 (the same value written with set_viewgram is read back as 6)",                                           \
+        ctx)
+
+struct Case;
+static float bin_get_fwd(Case& c, const std::array<int, 5>& k);
+
 static std::string
 num(double x)
 {
   if (x == static_cast<long long>(x) && std::fabs(x) < 1e15)
     return std::to_string(static_cast<long long>(x));
+  // exact dyadic fractions the Lean driver parses as rationals
+  for (int q = 2; q <= 16; q *= 2)
+    if (x * q == static_cast<long long>(x * q) && std::fabs(x) < 1e12)
+      return std::to_string(static_cast<long long>(x * q)) + "/" + std::to_string(q);
   return vh::hex(x);
 }
 
@@ -124,6 +150,13 @@ struct Case
   Bytes img; // current byte image (normalised)
   std::string cfgline;
   bool chkv = false, chkt = false;
+  // --- extension
+  float scale = 1.f;            // scale factor of the stream (p/q below), 1 for float / memory
+  int scale_p = 1, scale_q = 1;
+  float unit = 1.f;             // every generated value is an integer multiple of this (exactly representable on disk)
+  bool arc = false;             // arc-corrected geometry
+  int nframes = 1;
+  shared_ptr<ProjDataInfo> pdi_wide; // same ranges but (possibly) more segments than pdi: wider sources / foreign segments
 
   int maxView() const { return minView + numViews - 1; }
   int maxTang() const { return minTang + numTang - 1; }
@@ -239,10 +272,15 @@ diff_answer(const Case& c, const Bytes& before, const Bytes& after)
       const std::size_t a = static_cast<std::size_t>(c.offset + k * c.esize);
       if (std::memcmp(&before[a], &after[a], c.esize) != 0)
         {
+          // +0 -> -0 (float stores, e.g. 0 * -1 in the bulk arithmetic) is not a change of value
+          if (c.decode(before, k) == 0 && c.decode(after, k) == 0)
+            continue;
           slots.push_back(k);
           const double v = c.decode(after, k);
           const long long iv = (v == static_cast<long long>(v)) ? static_cast<long long>(v) : 999983;
-          cs = (cs + ((k + 1) % 1000003) * ((iv + 1000) % 1000003)) % 1000003;
+          // (mathematical, non-negative remainder: values can be below -1000 after the bulk arithmetic)
+          const long long ivm = (((iv + 1000) % 1000003) + 1000003) % 1000003;
+          cs = (cs + ((k + 1) % 1000003) * ivm) % 1000003;
         }
     }
   for (std::size_t a = 0; a < n; ++a)
@@ -451,6 +489,16 @@ do_write(Case& c, vh::Rng& rng, const std::string& op, F call, const std::vector
         {
           if (oor_kind == "view" || oor_kind == "tang")
             KNOWN_RANGE(ctx);
+          else if (oor_kind == "axial size of the segment container")
+            known("range:set_segment-axial-size-unchecked",
+                  "ProjDataFromStream::set_segment and ProjDataInMemory::set_segment check the number of views and tangential positions of "
+                  "the segment they are given but not its axial positions: a SegmentBySinogram/SegmentByView with one axial position more "
+                  "than the segment has (axial position max+1 is outside the index range) is accepted (Succeeded::yes) and written as one "
+                  "contiguous run, overwriting the first sinogram of the NEXT segment in the stream/buffer (behind the last segment of a "
+                  "ProjDataInMemory: heap overflow). Repro: ProjDataInMemory for 8 detectors/3 rings, span 1, max_delta 1 (segments 0,+1,-1 "
+                  "with 3,2,2 axial positions); clone the ProjDataInfo, set_max_axial_pos_num(3, 0), get_empty_segment_by_sinogram(0), "
+                  "fill(-7), set_segment: returns yes and get_sinogram(0, 1) is now all -7",
+                  ctx);
           else
             oracle_fail(ctx, "out-of-range (" + oor_kind + ") write request was not rejected" + (changed ? " and changed the data" : ""));
           // the reference no longer describes the data: resynchronise from the implementation
@@ -467,6 +515,25 @@ do_write(Case& c, vh::Rng& rng, const std::string& op, F call, const std::vector
       if (read_all(c, 0, got))
         c.ref = got;
       return;
+    }
+  if (!g_sbs && c.scale != 1.f && op.compare(0, 5, "setb ") == 0)
+    {
+      // the value comes back multiplied by the scale factor (or rounded): known class, resynchronise
+      bool same = false;
+      try
+        {
+          same = expect.size() == 1 && bin_get_fwd(c, expect[0].first) == expect[0].second;
+        }
+      catch (...)
+        {}
+      if (!same)
+        {
+          KNOWN_BINSCALE(ctx);
+          std::map<Key, float> got;
+          if (read_all(c, 0, got))
+            c.ref = got;
+          return;
+        }
     }
   for (auto& kv : expect)
     c.ref[kv.first] = kv.second;
@@ -524,11 +591,22 @@ do_read(Case& c, const std::string& op, F call, const std::vector<Key>& bins, bo
       return;
     }
   for (std::size_t i = 0; i < bins.size(); ++i)
-    if (c.ref[bins[i]] != vals[i])
-      {
-        oracle_fail(ctx, "read of bin " + keystr(bins[i]) + " returned " + num(vals[i]) + ", reference map has " + num(c.ref[bins[i]]));
-        return;
-      }
+    {
+      if (bins[i][0] == PAD)
+        {
+          if (vals[i] != 0.f)
+            {
+              oracle_fail(ctx, "padding element " + std::to_string(i) + " (make_num_tangential_poss_odd) is " + num(vals[i]) + ", not 0");
+              return;
+            }
+          continue;
+        }
+      if (c.ref[bins[i]] != vals[i])
+        {
+          oracle_fail(ctx, "read of bin " + keystr(bins[i]) + " returned " + num(vals[i]) + ", reference map has " + num(c.ref[bins[i]]));
+          return;
+        }
+    }
 }
 
 static std::string
@@ -593,8 +671,10 @@ bins_all(const Case& c)
   return r;
 }
 
-// small integers (exact in every on-disk type, scale factor stays 1); negative ones unless the on-disk type is unsigned
+// small integer multiples of g_unit (= the stream's scale factor for integer on-disk types: exact on disk; 1 or 1/2 for float
+// stores); negative ones unless the on-disk type is unsigned
 static bool g_signed_values = true;
+static float g_unit = 1.f; // values are integer multiples of this (the stream's scale factor; 1 or 1/2 for float stores)
 static std::vector<float>
 random_values(vh::Rng& rng, std::size_t n)
 {
@@ -604,6 +684,7 @@ random_values(vh::Rng& rng, std::size_t n)
       x = static_cast<float>(rng.range(0, 9) == 0 ? 0 : rng.range(1, 200));
       if (g_signed_values && x != 0 && rng.range(0, 2) == 0)
         x = -x;
+      x *= g_unit;
     }
   return v;
 }
@@ -622,6 +703,11 @@ bin_get(Case& c, const Key& k)
 {
   Bin b(k[0], k[1], k[2], k[3], k[4], 0.f);
   return c.pdm ? c.pdm->get_bin_value(b) : c.pdfs->get_bin_value(b);
+}
+static float
+bin_get_fwd(Case& c, const std::array<int, 5>& k)
+{
+  return bin_get(c, k);
 }
 static void
 bin_set(Case& c, const Key& k, float v)
@@ -659,9 +745,10 @@ build_case(Case& c, vh::Rng& rng, const std::string& outdir, int index, const st
     num_views = N / 4;
   const int num_tang = rng.range(2, std::max(2, N / 2 - 1));
   shared_ptr<Scanner> scanner = vh::make_scanner(N, R, tofbins);
+  c.arc = rng.range(0, 3) == 0;
   try
     {
-      c.pdi = vh::make_pdi(scanner, span, max_delta, num_views, num_tang, false, mash);
+      c.pdi = vh::make_pdi(scanner, span, max_delta, num_views, num_tang, c.arc, mash);
     }
   catch (...)
     {
@@ -672,27 +759,43 @@ build_case(Case& c, vh::Rng& rng, const std::string& outdir, int index, const st
   if (backing != "if" && rng.range(0, 2) == 0)
     {
       shared_ptr<ProjDataInfo> p = c.pdi->create_shared_clone();
+      shared_ptr<ProjDataInfo> w = c.pdi->create_shared_clone(); // same edits, but the segment range is kept
       if (rng.coin() && p->get_max_segment_num() >= 1)
         {
-          p->reduce_segment_range(rng.range(p->get_min_segment_num(), 0), rng.range(0, p->get_max_segment_num()));
+          int lo = rng.range(p->get_min_segment_num(), 0), hi = rng.range(0, p->get_max_segment_num());
+          if (lo == p->get_min_segment_num() && hi == p->get_max_segment_num())
+            --hi; // really narrower than the twin `w`
+          p->reduce_segment_range(lo, hi);
         }
       for (int s = p->get_min_segment_num(); s <= p->get_max_segment_num(); ++s)
         if (p->get_num_axial_poss(s) >= 3 && rng.range(0, 2) == 0)
           {
             if (rng.coin())
-              p->set_min_axial_pos_num(p->get_min_axial_pos_num(s) + 1, s);
+              {
+                p->set_min_axial_pos_num(p->get_min_axial_pos_num(s) + 1, s);
+                w->set_min_axial_pos_num(w->get_min_axial_pos_num(s) + 1, s);
+              }
             else
-              p->set_max_axial_pos_num(p->get_max_axial_pos_num(s) - 1, s);
+              {
+                p->set_max_axial_pos_num(p->get_max_axial_pos_num(s) - 1, s);
+                w->set_max_axial_pos_num(w->get_max_axial_pos_num(s) - 1, s);
+              }
           }
       if (rng.coin())
         {
           const int shift = rng.range(-1, 2);
+          const int grow = rng.range(0, 1);
           p->set_min_tangential_pos_num(p->get_min_tangential_pos_num() + shift);
-          p->set_max_tangential_pos_num(p->get_max_tangential_pos_num() + shift + rng.range(0, 1));
+          p->set_max_tangential_pos_num(p->get_max_tangential_pos_num() + shift + grow);
+          w->set_min_tangential_pos_num(w->get_min_tangential_pos_num() + shift);
+          w->set_max_tangential_pos_num(w->get_max_tangential_pos_num() + shift + grow);
         }
       c.pdi = p;
+      c.pdi_wide = w;
       c.symmetric_ok = false;
     }
+  if (!c.pdi_wide)
+    c.pdi_wide = c.pdi->create_shared_clone();
   const ProjDataInfo& p = *c.pdi;
   c.minSeg = p.get_min_segment_num();
   c.maxSeg = p.get_max_segment_num();
@@ -720,9 +823,15 @@ build_case(Case& c, vh::Rng& rng, const std::string& outdir, int index, const st
     static const PatientPosition::PositionValue pos[] = { PatientPosition::HFS, PatientPosition::HFP, PatientPosition::FFS, PatientPosition::FFP };
     c.exam->patient_position = PatientPosition(pos[rng.range(0, 3)]);
     TimeFrameDefinitions tf;
-    tf.set_num_time_frames(1);
-    const double start = rng.range(0, 50);
-    tf.set_time_frame(1, start, start + rng.range(1, 900));
+    c.nframes = rng.range(0, 2) == 0 ? rng.range(2, 3) : 1;
+    tf.set_num_time_frames(c.nframes);
+    double start = rng.range(0, 50);
+    for (int f = 1; f <= c.nframes; ++f)
+      {
+        const double end = start + rng.range(1, 900);
+        tf.set_time_frame(f, start, end);
+        start = end + rng.range(0, 30);
+      }
     c.exam->set_time_frame_definitions(tf);
     c.exam->set_low_energy_thres(static_cast<float>(rng.range(300, 450)));
     c.exam->set_high_energy_thres(static_cast<float>(rng.range(550, 700)));
@@ -746,6 +855,29 @@ build_case(Case& c, vh::Rng& rng, const std::string& outdir, int index, const st
     c.seq = ProjData::standard_segment_sequence(p);
   const ProjDataFromStream::StorageOrder so
       = c.order == 0 ? ProjDataFromStream::Segment_AxialPos_View_TangPos : ProjDataFromStream::Segment_View_AxialPos_TangPos;
+  // scale factor: integer on-disk types store value/scale; values are generated as k*scale (exact).
+  // float stores (scale factor stays 1: write_data ignores it for float -> float) also get half-integers
+  {
+    const int pick = rng.range(0, 3);
+    if (backing != "mem" && c.type.id != NumericType::FLOAT)
+      {
+        if (pick == 2)
+          {
+            c.scale = 0.5f;
+            c.scale_p = 1;
+            c.scale_q = 2;
+          }
+        else if (pick == 3)
+          {
+            c.scale = 3.f;
+            c.scale_p = 3;
+            c.scale_q = 1;
+          }
+        c.unit = c.scale;
+      }
+    else if (pick == 3)
+      c.unit = 0.5f;
+  }
 
   if (backing == "mem")
     {
@@ -769,7 +901,7 @@ build_case(Case& c, vh::Rng& rng, const std::string& outdir, int index, const st
       if (backing == "ss")
         {
           c.ss.reset(new std::stringstream(std::string(init.begin(), init.end()), std::ios::in | std::ios::out | std::ios::binary));
-          c.pdfs = new ProjDataFromStream(c.exam, c.pdi, c.ss, c.offset, c.seq, so, c.type, c.bo, 1.f);
+          c.pdfs = new ProjDataFromStream(c.exam, c.pdi, c.ss, c.offset, c.seq, so, c.type, c.bo, c.scale);
           c.pd.reset(c.pdfs);
         }
       else if (backing == "fs")
@@ -780,7 +912,7 @@ build_case(Case& c, vh::Rng& rng, const std::string& outdir, int index, const st
             f.write(reinterpret_cast<const char*>(init.data()), init.size());
           }
           c.fs.reset(new std::fstream(c.datafile.c_str(), std::ios::in | std::ios::out | std::ios::binary));
-          c.pdfs = new ProjDataFromStream(c.exam, c.pdi, c.fs, c.offset, c.seq, so, c.type, c.bo, 1.f);
+          c.pdfs = new ProjDataFromStream(c.exam, c.pdi, c.fs, c.offset, c.seq, so, c.type, c.bo, c.scale);
           c.pd.reset(c.pdfs);
         }
       else
@@ -791,7 +923,7 @@ build_case(Case& c, vh::Rng& rng, const std::string& outdir, int index, const st
           std::remove(c.datafile.c_str());
           try
             {
-              c.ifp = new InterfileProbe(c.exam, c.pdi, c.headerfile, std::ios::in | std::ios::out | std::ios::trunc, c.seq, so, c.type, c.bo, 1.f);
+              c.ifp = new InterfileProbe(c.exam, c.pdi, c.headerfile, std::ios::in | std::ios::out | std::ios::trunc, c.seq, so, c.type, c.bo, c.scale);
             }
           catch (...)
             {
@@ -805,7 +937,7 @@ build_case(Case& c, vh::Rng& rng, const std::string& outdir, int index, const st
                 }
               c.order = 1;
               c.ifp = new InterfileProbe(c.exam, c.pdi, c.headerfile, std::ios::in | std::ios::out | std::ios::trunc, c.seq,
-                                         ProjDataFromStream::Segment_View_AxialPos_TangPos, c.type, c.bo, 1.f);
+                                         ProjDataFromStream::Segment_View_AxialPos_TangPos, c.type, c.bo, c.scale);
             }
           c.pdfs = c.ifp;
           c.pd.reset(c.ifp);
@@ -892,6 +1024,61 @@ probe_range_checks(Case& c)
 
 static bool g_fb = false; // does set_bin_value make its value visible (flush)?
 
+// does set_segment reject a segment container with one axial position too many?
+static void
+probe_segment_size_check()
+{
+  shared_ptr<Scanner> scanner = vh::make_scanner(8, 3);
+  shared_ptr<ProjDataInfo> pdi = vh::make_pdi(scanner, 1, 1, 4, 3, false, 0);
+  shared_ptr<ExamInfo> exam(new ExamInfo(ImagingModality::PT));
+  shared_ptr<ProjDataInfo> big = pdi->create_shared_clone();
+  big->set_max_axial_pos_num(pdi->get_max_axial_pos_num(0) + 1, 0);
+  for (int which = 0; which < 2; ++which)
+    {
+      shared_ptr<ProjData> pd;
+      if (which == 0)
+        pd.reset(new ProjDataInMemory(exam, pdi));
+      else
+        {
+          shared_ptr<std::stringstream> ss(new std::stringstream(std::string(8192, '\0'), std::ios::in | std::ios::out | std::ios::binary));
+          pd.reset(new ProjDataFromStream(exam, pdi, ss, 0, ProjDataFromStream::Segment_AxialPos_View_TangPos, NumericType::FLOAT, ByteOrder::native));
+        }
+      bool rejected = false;
+      try
+        {
+          SegmentBySinogram<float> seg = big->get_empty_segment_by_sinogram(0, false, 0);
+          seg.fill(1.f);
+          rejected = pd->set_segment(seg) != Succeeded::yes;
+        }
+      catch (...)
+        {
+          rejected = true;
+        }
+      (which == 0 ? g_chkseg_mem : g_chkseg_pdfs) = rejected;
+    }
+}
+
+// does set_bin_value honour the stream's scale factor (as get_bin_value and every other set_* do)?
+static void
+probe_bin_scale()
+{
+  shared_ptr<Scanner> scanner = vh::make_scanner(8, 2);
+  shared_ptr<ProjDataInfo> pdi = vh::make_pdi(scanner, 1, 0, 4, 3, false, 0);
+  shared_ptr<ExamInfo> exam(new ExamInfo(ImagingModality::PT));
+  shared_ptr<std::stringstream> ss(new std::stringstream(std::string(4096, '\0'), std::ios::in | std::ios::out | std::ios::binary));
+  ProjDataFromStream pd(exam, pdi, ss, 0, ProjDataFromStream::Segment_View_AxialPos_TangPos, NumericType::SHORT, ByteOrder::native, 3.f);
+  Bin b(0, 1, 1, 0, 0, 6.f);
+  try
+    {
+      pd.set_bin_value(b);
+      g_sbs = pd.get_bin_value(b) == 6.f;
+    }
+  catch (...)
+    {
+      g_sbs = false;
+    }
+}
+
 static void
 probe_flush(const std::string& outdir)
 {
@@ -924,6 +1111,7 @@ write_cfg(Case& c)
     << c.maxSeg << " " << c.minView << " " << c.numViews << " " << c.minTang << " " << c.numTang << " " << c.minTof << " " << c.maxTof
     << " " << c.numTof << " " << (c.chkv ? 1 : 0) << " " << (c.chkt ? 1 : 0) << " " << (g_fb ? 1 : 0) << " " << type_name(c) << " "
     << (c.backing == "mem" ? "native" : (c.bo == ByteOrder::little_endian ? "little" : "big"));
+  s << " scale " << c.scale_p << " " << c.scale_q << " " << (g_sbs ? 1 : 0) << " " << ((c.pdm ? g_chkseg_mem : g_chkseg_pdfs) ? 1 : 0);
   s << " seq";
   for (int x : c.seq)
     s << " " << x;
@@ -936,6 +1124,557 @@ write_cfg(Case& c)
   c.cfgline = s.str();
   // implementation's own total: ProjData::size_all() (number of bins) -- model recomputes it from the layout
   emit(c.cfgline, "slots " + std::to_string(static_cast<long>(c.pd->size_all())));
+}
+
+
+// ===================================================================================================
+// EXTENSION: operations added to close coverage gaps
+//   bulk <kind> <fast> <a> <b> [y v..] [x v..] [A v..] [B v..]
+//        ProjData::sapyb/xapyb/axpby (scalar and element-wise), operator+=,-=,*=,/= with ProjData and float,
+//        and the ProjDataInMemory buffer specialisations (fast=1: destination and all operands are ProjDataInMemory).
+//        Operand values are listed in the order the generic code reads them (TOF slowest, segments increasing,
+//        SegmentBySinogram); the operands themselves are ProjDataInMemory or ProjDataFromStream objects with their
+//        OWN random layout (storage order, segment permutation, byte order, offset).
+//   subset <n> <views..>    ProjData::get_subset: content of the returned ProjDataInMemory in buffer order
+//   tomem <how>             ProjDataInMemory(const ProjData&) [0], copy constructor [1], ProjDataInMemory::read_from_file [2]
+//   fillsrc <v..>           fill(const ProjData&) from a stream with another layout and/or a wider segment range
+//   getvo / getso / setvo   make_num_tangential_poss_odd = true
+//   setv / sets / setss / setsv with a view / axial position / segment outside the ranges (must be rejected)
+//   setssx / setsvx         set_segment with a segment container that has one axial position too many (must be rejected)
+//   hdr2                    write_basic_interfile_PDFS_header on a stream with non-zero offset -> ProjData::read_from_file
+// ===================================================================================================
+
+static std::vector<Key>
+bins_all_of(const ProjDataInfo& p)
+{
+  std::vector<Key> r;
+  for (int k = p.get_min_tof_pos_num(); k <= p.get_max_tof_pos_num(); ++k)
+    for (int s : ProjData::standard_segment_sequence(p))
+      for (int a = p.get_min_axial_pos_num(s); a <= p.get_max_axial_pos_num(s); ++a)
+        for (int v = p.get_min_view_num(); v <= p.get_max_view_num(); ++v)
+          for (int t = p.get_min_tangential_pos_num(); t <= p.get_max_tangential_pos_num(); ++t)
+            r.push_back(Key{ s, v, a, t, k });
+  return r;
+}
+// order of ProjData::xapyb / apply_func: TOF slowest, segments increasing, SegmentBySinogram
+static std::vector<Key>
+bins_bulk(const Case& c)
+{
+  std::vector<Key> r;
+  for (int k = c.minTof; k <= c.maxTof; ++k)
+    for (int s = c.minSeg; s <= c.maxSeg; ++s)
+      {
+        const std::vector<Key> b = bins_seg_by_sino(c, s, k);
+        r.insert(r.end(), b.begin(), b.end());
+      }
+  return r;
+}
+// order of ProjData::fill(const ProjData&): segments increasing, TOF, SegmentByView
+static std::vector<Key>
+bins_fillpd(const Case& c)
+{
+  std::vector<Key> r;
+  for (int s = c.minSeg; s <= c.maxSeg; ++s)
+    for (int k = c.minTof; k <= c.maxTof; ++k)
+      {
+        const std::vector<Key> b = bins_seg_by_view(c, s, k);
+        r.insert(r.end(), b.begin(), b.end());
+      }
+  return r;
+}
+
+// another projection-data object holding `vals` (bins not listed: 0): in memory (kind 0) or a float stream with its own
+// random layout (kind 1)
+static shared_ptr<ProjData>
+make_operand(Case& c, vh::Rng& rng, const std::map<Key, float>& vals, int kind, const shared_ptr<ProjDataInfo>& pdi)
+{
+  shared_ptr<ProjData> r;
+  if (kind == 0)
+    r.reset(new ProjDataInMemory(c.exam, pdi));
+  else
+    {
+      const ProjDataInfo& p = *pdi;
+      std::vector<int> seq;
+      for (int s = p.get_min_segment_num(); s <= p.get_max_segment_num(); ++s)
+        seq.push_back(s);
+      for (std::size_t i = seq.size(); i > 1; --i)
+        std::swap(seq[i - 1], seq[rng.range(0, static_cast<int>(i) - 1)]);
+      const long off = rng.coin() ? 0 : 20;
+      const std::size_t total = static_cast<std::size_t>(p.size_all());
+      shared_ptr<std::stringstream> ss(
+          new std::stringstream(std::string(off + total * 4 + 16, '\0'), std::ios::in | std::ios::out | std::ios::binary));
+      r.reset(new ProjDataFromStream(c.exam,
+                                     pdi,
+                                     ss,
+                                     off,
+                                     seq,
+                                     rng.coin() ? ProjDataFromStream::Segment_AxialPos_View_TangPos
+                                                : ProjDataFromStream::Segment_View_AxialPos_TangPos,
+                                     NumericType::FLOAT,
+                                     rng.coin() ? ByteOrder::little_endian : ByteOrder::big_endian,
+                                     1.f));
+    }
+  const std::vector<Key> order = bins_all_of(*pdi);
+  std::vector<float> v(order.size());
+  for (std::size_t i = 0; i < order.size(); ++i)
+    {
+      auto it = vals.find(order[i]);
+      v[i] = it == vals.end() ? 0.f : it->second;
+    }
+  r->fill_from(v.begin());
+  return r;
+}
+
+static std::map<Key, float>
+to_map(const std::vector<Key>& b, const std::vector<float>& v)
+{
+  std::map<Key, float> m;
+  for (std::size_t i = 0; i < b.size(); ++i)
+    m[b[i]] = v[i];
+  return m;
+}
+
+static std::vector<float>
+small_ints(vh::Rng& rng, std::size_t n, int lo, int hi, bool nonzero)
+{
+  std::vector<float> v(n);
+  for (auto& x : v)
+    {
+      do
+        x = static_cast<float>(rng.range(lo, hi));
+      while (nonzero && x == 0.f);
+    }
+  return v;
+}
+
+static bool
+has_wider_segments(const Case& c)
+{
+  return c.pdi_wide->get_min_segment_num() < c.minSeg || c.pdi_wide->get_max_segment_num() > c.maxSeg;
+}
+
+// returns false when the operation was not applicable (nothing emitted)
+static bool
+run_ext_op(Case& c, vh::Rng& rng, int kind)
+{
+  ProjData& pd = *c.pd;
+  auto rseg = [&]() { return rng.range(c.minSeg, c.maxSeg); };
+  auto rview = [&]() { return rng.range(c.minView, c.maxView()); };
+  auto rtof = [&]() { return rng.range(c.minTof, c.maxTof); };
+  auto rax = [&](int s) { return rng.range(c.minAx[s], c.maxAxOf(s)); };
+  const bool sgn = g_signed_values;
+  std::ostringstream op;
+  switch (kind)
+    {
+    case 0:
+    case 1:
+    case 2:
+    case 3: { // bulk arithmetic
+      if (c.total > 3000 && rng.range(0, 3) != 0)
+        return false;
+      static const char* names[] = { "sapyb", "xapyb", "axpby", "sapybv", "xapybv", "add", "sub", "mul", "div", "addf", "subf", "mulf", "divf" };
+      const int kd = rng.range(0, 12);
+      const std::vector<Key> bins = bins_bulk(c);
+      const std::size_t n = bins.size();
+      const bool need_y = kd <= 8, need_x = kd == 1 || kd == 2 || kd == 4, need_AB = kd == 3 || kd == 4;
+      float a = 0, b = 0;
+      std::vector<float> y, x, A, B;
+      if (kd <= 2)
+        {
+          a = static_cast<float>(rng.range(sgn ? -2 : 0, 3));
+          b = static_cast<float>(rng.range(sgn ? -2 : 0, 3));
+        }
+      else if (kd == 9 || kd == 10)
+        a = static_cast<float>(rng.range(sgn ? -50 : 0, 50)) * c.unit;
+      else if (kd == 11)
+        a = static_cast<float>(rng.range(sgn ? -2 : 0, 3));
+      else if (kd == 12)
+        {
+          const int w = rng.range(0, 2);
+          a = w == 0 ? 1.f : w == 1 ? 0.5f : (sgn ? -1.f : 1.f);
+        }
+      if (need_y)
+        {
+          if (kd == 7)
+            y = small_ints(rng, n, sgn ? -2 : 0, 2, false);
+          else if (kd == 8)
+            {
+              y = small_ints(rng, n, sgn ? -1 : 1, 1, true);
+              if (rng.coin())
+                for (auto& q : y)
+                  if (q == 1.f && rng.range(0, 3) == 0)
+                    q = 0.5f;
+            }
+          else
+            y = random_values(rng, n);
+        }
+      if (need_x)
+        x = random_values(rng, n);
+      if (need_AB)
+        {
+          A = small_ints(rng, n, sgn ? -2 : 0, 2, false);
+          B = small_ints(rng, n, sgn ? -2 : 0, 2, false);
+        }
+      // meaning
+      std::vector<float> res(n);
+      for (std::size_t i = 0; i < n; ++i)
+        {
+          const float o = c.ref[bins[i]];
+          float r = 0;
+          switch (kd)
+            {
+            case 0: r = a * o + b * y[i]; break;
+            case 1:
+            case 2: r = a * x[i] + b * y[i]; break;
+            case 3: r = A[i] * o + B[i] * y[i]; break;
+            case 4: r = A[i] * x[i] + B[i] * y[i]; break;
+            case 5: r = o + y[i]; break;
+            case 6: r = o - y[i]; break;
+            case 7: r = o * y[i]; break;
+            case 8: r = o / y[i]; break;
+            case 9: r = o + a; break;
+            case 10: r = o - a; break;
+            case 11: r = o * a; break;
+            default: r = o / a;
+            }
+          const float q = r / c.unit;
+          if (q != static_cast<float>(static_cast<long>(q)) || std::fabs(q) > 20000.f || (!sgn && r < 0))
+            return false; // result would not be exactly representable in the store
+          res[i] = r;
+        }
+      // operands: in memory or streams with their own layout
+      const int yk = rng.range(0, 1), xk = rng.range(0, 1), Ak = rng.range(0, 1), Bk = rng.range(0, 1);
+      shared_ptr<ProjData> yp, xp, Ap, Bp;
+      if (need_y)
+        yp = make_operand(c, rng, to_map(bins, y), yk, c.pdi);
+      if (need_x)
+        xp = make_operand(c, rng, to_map(bins, x), xk, c.pdi);
+      if (need_AB)
+        {
+          Ap = make_operand(c, rng, to_map(bins, A), Ak, c.pdi);
+          Bp = make_operand(c, rng, to_map(bins, B), Bk, c.pdi);
+        }
+      bool fast = c.pdm != nullptr;
+      if (need_y && yk != 0)
+        fast = false;
+      if (need_x && xk != 0)
+        fast = false;
+      if (need_AB && (Ak != 0 || Bk != 0))
+        fast = false;
+      if (kd >= 5 && kd <= 8 && c.pdm && yk != 0)
+        fast = false;
+      op << "bulk " << names[kd] << " " << (fast ? 1 : 0) << " " << num(a) << " " << num(b);
+      if (need_y)
+        op << " y" << vals_str(y);
+      if (need_x)
+        op << " x" << vals_str(x);
+      if (need_AB)
+        op << " A" << vals_str(A) << " B" << vals_str(B);
+      const bool via_binary_operator = fast && kd >= 5 && kd <= 12 && rng.coin();
+      do_write(
+          c, rng, op.str(),
+          [&]() {
+            if (via_binary_operator)
+              { // ProjDataInMemory operator+ ... (copy constructor + compound assignment), then buffer copy back
+                const ProjDataInMemory& self = *c.pdm;
+                const ProjDataInMemory* ym = dynamic_cast<const ProjDataInMemory*>(yp.get());
+                ProjDataInMemory r = kd == 5   ? self + *ym
+                                     : kd == 6 ? self - *ym
+                                     : kd == 7 ? self * *ym
+                                     : kd == 8 ? self / *ym
+                                     : kd == 9 ? self + a
+                                     : kd == 10 ? self - a
+                                     : kd == 11 ? self * a
+                                                : self / a;
+                c.pdm->fill(r);
+                return true;
+              }
+            switch (kd)
+              {
+              case 0: pd.sapyb(a, *yp, b); break;
+              case 1: pd.xapyb(*xp, a, *yp, b); break;
+              case 2: pd.axpby(a, *xp, b, *yp); break;
+              case 3: pd.sapyb(*Ap, *yp, *Bp); break;
+              case 4: pd.xapyb(*xp, *Ap, *yp, *Bp); break;
+              case 5: pd += *yp; break;
+              case 6: pd -= *yp; break;
+              case 7: pd *= *yp; break;
+              case 8: pd /= *yp; break;
+              case 9: pd += a; break;
+              case 10: pd -= a; break;
+              case 11: pd *= a; break;
+              default: pd /= a;
+              }
+            return true;
+          },
+          zip(bins, res), false, "");
+      return true;
+    }
+    case 4: { // get_subset
+      std::vector<int> views;
+      for (int v = c.minView; v <= c.maxView(); ++v)
+        views.push_back(v);
+      for (std::size_t i = views.size(); i > 1; --i)
+        std::swap(views[i - 1], views[rng.range(0, static_cast<int>(i) - 1)]);
+      views.resize(static_cast<std::size_t>(rng.range(1, c.numViews)));
+      if (rng.coin())
+        std::sort(views.begin(), views.end());
+      op << "subset " << views.size();
+      for (int v : views)
+        op << " " << v;
+      std::vector<Key> bins; // buffer order of the subset
+      for (int k = c.minTof; k <= c.maxTof; ++k)
+        for (int s : ProjData::standard_segment_sequence(*c.pdi))
+          for (int a = c.minAx[s]; a <= c.maxAxOf(s); ++a)
+            for (int v : views)
+              for (int t = c.minTang; t <= c.maxTang(); ++t)
+                bins.push_back(Key{ s, v, a, t, k });
+      do_read(
+          c, op.str(),
+          [&]() {
+            const unique_ptr<ProjDataInMemory> sub = pd.get_subset(views);
+            const ProjDataInMemory& cs = *sub;
+            std::vector<float> r(cs.begin_all(), cs.end_all());
+            // a second path through the subset object must agree with its buffer
+            std::size_t i = 0;
+            for (int k = c.minTof; k <= c.maxTof; ++k)
+              for (int s : ProjData::standard_segment_sequence(*c.pdi))
+                for (int a = c.minAx[s]; a <= c.maxAxOf(s); ++a)
+                  {
+                    // (the subset geometry numbers tangential positions from its own default minimum: positional comparison)
+                    const Sinogram<float> sg = cs.get_sinogram(a, s, false, k);
+                    if (sg.get_num_views() != static_cast<int>(views.size()) || sg.get_num_tangential_poss() != c.numTang)
+                      return std::vector<float>();
+                    for (int j = sg.get_min_view_num(); j <= sg.get_max_view_num(); ++j)
+                      for (int t = sg.get_min_tangential_pos_num(); t <= sg.get_max_tangential_pos_num(); ++t, ++i)
+                        if (i < r.size() && sg[j][t] != r[i])
+                          r[i] = std::numeric_limits<float>::quiet_NaN();
+                  }
+            return r;
+          },
+          bins, false, "");
+      return true;
+    }
+    case 5: { // copies into memory
+      if (c.total > 4000 && rng.range(0, 2) != 0)
+        return false;
+      int how = 0;
+      if (c.pdm && rng.coin())
+        how = 1;
+      else if (c.backing == "if" && rng.coin())
+        how = 2;
+      op << "tomem " << how;
+      do_read(
+          c, op.str(),
+          [&]() {
+            shared_ptr<ProjDataInMemory> m;
+            if (how == 0)
+              m.reset(new ProjDataInMemory(static_cast<const ProjData&>(pd)));
+            else if (how == 1)
+              m.reset(new ProjDataInMemory(*c.pdm));
+            else
+              m = ProjDataInMemory::read_from_file(c.headerfile);
+            const ProjDataInMemory& cm = *m;
+            if (!(*cm.get_proj_data_info_sptr() == *c.pdi))
+              return std::vector<float>();
+            return std::vector<float>(cm.begin_all(), cm.end_all());
+          },
+          bins_all(c), false, "");
+      return true;
+    }
+    case 6: { // fill(const ProjData&) from a differently laid-out / wider source
+      if (c.total > 4000 && rng.range(0, 2) != 0)
+        return false;
+      const std::vector<Key> bins = bins_fillpd(c);
+      const std::vector<float> vals = random_values(rng, bins.size());
+      const bool wide = has_wider_segments(c) && rng.coin();
+      const int sk = wide ? rng.range(0, 1) : 1;
+      std::map<Key, float> m = to_map(bins, vals);
+      if (wide) // the segments this object does not have hold other values
+        for (const Key& b : bins_all_of(*c.pdi_wide))
+          if (b[0] < c.minSeg || b[0] > c.maxSeg)
+            m[b] = 77.f * c.unit;
+      if (wide)
+        g_hist["sub:fillsrc-wider-source"]++;
+      op << "fillsrc" << vals_str(vals);
+      do_write(
+          c, rng, op.str(),
+          [&]() {
+            shared_ptr<ProjData> src = make_operand(c, rng, m, sk, wide ? c.pdi_wide : c.pdi);
+            pd.fill(*src);
+            return true;
+          },
+          zip(bins, vals), false, "");
+      return true;
+    }
+    case 7: { // make_num_tangential_poss_odd = true
+      const int s = rseg(), v = rview(), k = rtof(), a = rax(s);
+      const bool even = c.numTang % 2 == 0;
+      const int w = rng.range(0, 2);
+      if (w == 0)
+        {
+          std::vector<Key> bins;
+          for (int aa = c.minAx[s]; aa <= c.maxAxOf(s); ++aa)
+            {
+              for (int t = c.minTang; t <= c.maxTang(); ++t)
+                bins.push_back(Key{ s, v, aa, t, k });
+              if (even)
+                bins.push_back(Key{ PAD, 0, 0, 0, 0 });
+            }
+          op << "getvo " << s << " " << v << " " << k;
+          do_read(
+              c, op.str(),
+              [&]() {
+                const Viewgram<float> vg = pd.get_viewgram(v, s, true, k);
+                std::vector<float> r;
+                for (int aa = vg.get_min_axial_pos_num(); aa <= vg.get_max_axial_pos_num(); ++aa)
+                  for (int t = vg.get_min_tangential_pos_num(); t <= vg.get_max_tangential_pos_num(); ++t)
+                    r.push_back(vg[aa][t]);
+                return r;
+              },
+              bins, false, "");
+        }
+      else if (w == 1)
+        {
+          std::vector<Key> bins;
+          for (int vv = c.minView; vv <= c.maxView(); ++vv)
+            {
+              for (int t = c.minTang; t <= c.maxTang(); ++t)
+                bins.push_back(Key{ s, vv, a, t, k });
+              if (even)
+                bins.push_back(Key{ PAD, 0, 0, 0, 0 });
+            }
+          op << "getso " << s << " " << a << " " << k;
+          do_read(
+              c, op.str(),
+              [&]() {
+                const Sinogram<float> sg = pd.get_sinogram(a, s, true, k);
+                std::vector<float> r;
+                for (int vv = sg.get_min_view_num(); vv <= sg.get_max_view_num(); ++vv)
+                  for (int t = sg.get_min_tangential_pos_num(); t <= sg.get_max_tangential_pos_num(); ++t)
+                    r.push_back(sg[vv][t]);
+                return r;
+              },
+              bins, false, "");
+        }
+      else
+        { // a viewgram with one tangential position too many must be rejected; with an odd number the flag does nothing
+          const std::vector<Key> bins = bins_viewgram(c, s, v, k);
+          const std::vector<float> vals = random_values(rng, bins.size());
+          op << "setvo " << s << " " << v << " " << k << vals_str(vals);
+          do_write(
+              c, rng, op.str(),
+              [&]() {
+                Viewgram<float> vg = pd.get_empty_viewgram(v, s, true, k);
+                vg.fill(213.f * c.unit);
+                std::size_t i = 0;
+                for (int aa = c.minAx[s]; aa <= c.maxAxOf(s); ++aa)
+                  for (int t = c.minTang; t <= c.maxTang(); ++t)
+                    vg[aa][t] = vals[i++];
+                return pd.set_viewgram(vg) == Succeeded::yes;
+              },
+              even ? std::vector<std::pair<Key, float>>() : zip(bins, vals), even, "tangential size (make_num_tangential_poss_odd)");
+        }
+      return true;
+    }
+    default: { // container setters with an index outside the ranges
+      const int w = rng.range(0, 3);
+      const bool hi = rng.coin();
+      const int s = rseg(), k = rtof();
+      const int s0 = c.seq[0];
+      if (w == 0)
+        { // set_viewgram, view outside
+          int ss = s, vv = hi ? c.maxView() + 1 : c.minView - 1, kk = k;
+          if (!c.chkv)
+            { // without a view check the request aliases: keep the alias inside the store
+              if (c.seq.size() < 2)
+                return false;
+              ss = s0;
+              vv = c.maxView() + 1;
+              kk = c.tof0();
+            }
+          const std::vector<float> vals = random_values(rng, bins_viewgram(c, ss, c.minView, kk).size());
+          op << "setv " << ss << " " << vv << " " << kk << vals_str(vals);
+          do_write(
+              c, rng, op.str(),
+              [&]() {
+                Viewgram<float> vg = pd.get_empty_viewgram(vv, ss, false, kk);
+                vg.fill(214.f * c.unit);
+                return pd.set_viewgram(vg) == Succeeded::yes;
+              },
+              {}, true, "view");
+        }
+      else if (w == 1)
+        { // set_sinogram, axial position outside
+          const int aa = hi ? c.maxAxOf(s) + 1 : c.minAx[s] - 1;
+          const std::vector<float> vals = random_values(rng, bins_sinogram(c, s, c.minAx[s], k).size());
+          op << "sets " << s << " " << aa << " " << k << vals_str(vals);
+          do_write(
+              c, rng, op.str(),
+              [&]() {
+                Sinogram<float> sg = pd.get_empty_sinogram(aa, s, false, k);
+                sg.fill(215.f * c.unit);
+                return pd.set_sinogram(sg) == Succeeded::yes;
+              },
+              {}, true, "axial");
+        }
+      else if (w == 2)
+        { // set_segment, segment outside (the container comes from the wider geometry)
+          if (!has_wider_segments(c))
+            return false;
+          int sb = hi ? c.maxSeg + 1 : c.minSeg - 1;
+          if (sb > c.pdi_wide->get_max_segment_num())
+            sb = c.minSeg - 1;
+          if (sb < c.pdi_wide->get_min_segment_num())
+            sb = c.maxSeg + 1;
+          if (sb < c.pdi_wide->get_min_segment_num() || sb > c.pdi_wide->get_max_segment_num())
+            return false;
+          const bool byview = rng.coin();
+          g_hist["sub:set_segment-foreign-segment"]++;
+          op << (byview ? "setsv " : "setss ") << sb << " " << k << " 0";
+          do_write(
+              c, rng, op.str(),
+              [&]() {
+                if (byview)
+                  {
+                    SegmentByView<float> seg = c.pdi_wide->get_empty_segment_by_view(sb, false, k);
+                    seg.fill(216.f * c.unit);
+                    return pd.set_segment(seg) == Succeeded::yes;
+                  }
+                SegmentBySinogram<float> seg = c.pdi_wide->get_empty_segment_by_sinogram(sb, false, k);
+                seg.fill(216.f * c.unit);
+                return pd.set_segment(seg) == Succeeded::yes;
+              },
+              {}, true, "segment");
+        }
+      else
+        { // set_segment with a container that has one axial position too many (axial position max+1 is outside the range).
+          // First segment of the stream and something stored behind it, so that an unchecked write stays inside the store.
+          if (c.seq.size() < 2 && c.numTof < 2)
+            return false;
+          const int kk = c.numTof > 1 && c.seq.size() < 2 ? c.tofseq[0] : (c.seq.size() >= 2 ? k : c.tofseq[0]);
+          const bool byview = rng.coin();
+          op << (byview ? "setsvx " : "setssx ") << s0 << " " << kk << " " << num(217.f * c.unit);
+          do_write(
+              c, rng, op.str(),
+              [&]() {
+                shared_ptr<ProjDataInfo> big = c.pdi->create_shared_clone();
+                big->set_max_axial_pos_num(c.maxAxOf(s0) + 1, s0);
+                if (byview)
+                  {
+                    SegmentByView<float> seg = big->get_empty_segment_by_view(s0, false, kk);
+                    seg.fill(217.f * c.unit);
+                    return pd.set_segment(seg) == Succeeded::yes;
+                  }
+                SegmentBySinogram<float> seg = big->get_empty_segment_by_sinogram(s0, false, kk);
+                seg.fill(217.f * c.unit);
+                return pd.set_segment(seg) == Succeeded::yes;
+              },
+              {}, true, "axial size of the segment container");
+        }
+      return true;
+    }
+    }
 }
 
 // ---------------------------------------------------------------------------------------------------
@@ -953,11 +1692,19 @@ run_history(Case& c, vh::Rng& rng, int len)
   bool force_fill = false;
   for (int step = 0; step < len; ++step)
     {
-      int kind = rng.range(0, 27);
+      int kind = rng.range(0, 39);
       if (force_fill)
         {
           kind = 20;
           force_fill = false;
+        }
+      if (kind >= 28)
+        {
+          // 28-31 bulk, 32 subset, 33 tomem, 34 fillsrc, 35-36 make-odd, 37-39 container setters out of range
+          static const int map[] = { 0, 1, 2, 3, 4, 5, 6, 7, 7, 8, 8, 8 };
+          if (!run_ext_op(c, rng, map[kind - 28]))
+            --step;
+          continue;
         }
       std::ostringstream op;
       switch (kind)
@@ -1383,27 +2130,33 @@ run_history(Case& c, vh::Rng& rng, int len)
     }
 }
 
-// header round trip for an Interfile-backed case: the writer is still open
-static void
-header_roundtrip(Case& c)
+// header + data read back by ProjData::read_from_file while the writer is still open: geometry, exam information
+// (every time frame), layout description (segment sequence, storage order, number format, byte order, offset,
+// scale factor) and values
+static std::string
+readback_verdict(Case& c, const std::string& headerfile)
 {
   std::string verdict = "ok";
-  ++g_checks;
-  const std::string ctx = c.cfgline;
   try
     {
-      shared_ptr<ProjData> rb = ProjData::read_from_file(c.headerfile);
+      shared_ptr<ProjData> rb = ProjData::read_from_file(headerfile);
       const ProjDataFromStream* pf = dynamic_cast<const ProjDataFromStream*>(rb.get());
+      const ExamInfo& e = rb->get_exam_info();
+      bool frames_ok = e.time_frame_definitions.get_num_time_frames() == static_cast<unsigned>(c.nframes);
+      for (int f = 1; frames_ok && f <= c.nframes; ++f)
+        frames_ok = e.time_frame_definitions.get_start_time(f) == c.exam->time_frame_definitions.get_start_time(f)
+                    && e.time_frame_definitions.get_end_time(f) == c.exam->time_frame_definitions.get_end_time(f);
       if (!(*rb->get_proj_data_info_sptr() == *c.pdi))
         verdict = "bad:geometry";
-      else if (!(rb->get_exam_info() == *c.exam))
+      else if ((dynamic_cast<const ProjDataInfoCylindricalArcCorr*>(rb->get_proj_data_info_sptr().get()) != nullptr) != c.arc)
+        verdict = "bad:arc-correction";
+      else if (!frames_ok)
+        verdict = "bad:time-frames";
+      else if (!(e == *c.exam))
         verdict = "bad:exam-info";
-      else if (!(rb->get_exam_info().patient_position == c.exam->patient_position)
-               || rb->get_exam_info().get_low_energy_thres() != c.exam->get_low_energy_thres()
-               || rb->get_exam_info().get_high_energy_thres() != c.exam->get_high_energy_thres()
-               || rb->get_exam_info().time_frame_definitions.get_start_time(1) != c.exam->time_frame_definitions.get_start_time(1)
-               || rb->get_exam_info().time_frame_definitions.get_end_time(1) != c.exam->time_frame_definitions.get_end_time(1)
-               || rb->get_exam_info().imaging_modality.get_modality() != ImagingModality::PT)
+      else if (!(e.patient_position == c.exam->patient_position) || e.get_low_energy_thres() != c.exam->get_low_energy_thres()
+               || e.get_high_energy_thres() != c.exam->get_high_energy_thres()
+               || e.imaging_modality.get_modality() != ImagingModality::PT)
         verdict = "bad:exam-info-fields";
       else if (!pf)
         verdict = "bad:type";
@@ -1411,9 +2164,12 @@ header_roundtrip(Case& c)
         verdict = "bad:segment-sequence";
       else if (pf->get_storage_order() != c.pdfs->get_storage_order())
         verdict = "bad:storage-order";
-      else if (pf->get_data_type_in_stream().id != c.type.id || !(pf->get_byte_order_in_stream() == c.pdfs->get_byte_order_in_stream())
-               || pf->get_offset_in_stream() != 0 || pf->get_scale_factor() != 1.f)
+      else if (pf->get_data_type_in_stream().id != c.type.id || !(pf->get_byte_order_in_stream() == c.pdfs->get_byte_order_in_stream()))
         verdict = "bad:number-format";
+      else if (pf->get_offset_in_stream() != static_cast<std::streamoff>(c.offset))
+        verdict = "bad:data-offset";
+      else if (pf->get_scale_factor() != c.scale)
+        verdict = "bad:scale-factor";
       else
         {
           for (int k = c.minTof; k <= c.maxTof && verdict == "ok"; ++k)
@@ -1433,9 +2189,44 @@ header_roundtrip(Case& c)
     {
       verdict = "bad:threw";
     }
+  return verdict;
+}
+
+// header round trip for an Interfile-backed case: the writer is still open
+static void
+header_roundtrip(Case& c)
+{
+  ++g_checks;
+  const std::string verdict = readback_verdict(c, c.headerfile);
   emit("hdr", verdict);
   if (verdict != "ok")
-    oracle_fail(ctx, "header round trip (ProjDataInterfile -> ProjData::read_from_file, writer still open): " + verdict);
+    oracle_fail(c.cfgline, "header round trip (ProjDataInterfile -> ProjData::read_from_file, writer still open): " + verdict);
+}
+
+// header written by write_basic_interfile_PDFS_header for a plain ProjDataFromStream on a file (non-zero data offset,
+// scale factor, several time frames, arc-corrected geometries) -> ProjData::read_from_file; the writer is still open
+static void
+header_roundtrip_offset(Case& c)
+{
+  ++g_checks;
+  const std::string hdr = c.datafile.substr(0, c.datafile.size() - 4) + ".hs";
+  std::string verdict;
+  try
+    {
+      if (write_basic_interfile_PDFS_header(hdr, c.datafile, *c.pdfs) != Succeeded::yes)
+        verdict = "bad:write";
+      else
+        verdict = readback_verdict(c, hdr);
+    }
+  catch (...)
+    {
+      verdict = "bad:header-writer-threw";
+    }
+  std::remove(hdr.c_str());
+  emit("hdr2", verdict);
+  if (verdict != "ok")
+    oracle_fail(c.cfgline, "header round trip (write_basic_interfile_PDFS_header on a stream at offset " + std::to_string(c.offset)
+                               + " -> ProjData::read_from_file, writer still open): " + verdict);
 }
 
 // ProjData::write_to_file (any backing) -> ProjData::read_from_file
@@ -1568,6 +2359,8 @@ main(int argc, char** argv)
     outdir = ".";
 
   probe_flush(outdir);
+  probe_bin_scale();
+  probe_segment_size_check();
 
   const int ncases = thorough ? 3000 : 160;
   const int len = thorough ? 80 : 30;
@@ -1590,13 +2383,30 @@ main(int argc, char** argv)
       if (!ok)
         continue;
       g_signed_values = c.backing == "mem" || c.type.id != NumericType::USHORT;
+      g_unit = c.unit;
+      if (c.arc)
+        g_hist["case:arc-corrected"]++;
+      if (c.scale != 1.f)
+        g_hist["case:scale-factor-not-1"]++;
+      if (c.unit == 0.5f && c.scale == 1.f)
+        g_hist["case:float-half-integers"]++;
+      if (c.nframes > 1)
+        g_hist["case:several-time-frames"]++;
+      if (has_wider_segments(c))
+        g_hist["case:wider-source-available"]++;
       probe_range_checks(c);
       write_cfg(c);
       run_history(c, rng, len);
       if (c.backing == "if")
         header_roundtrip(c);
-      else if (c.symmetric_ok && done % 2 == 0)
-        write_to_file_roundtrip(c, outdir);
+      else
+        {
+          // (the header cannot describe trimmed index ranges, and its writer rejects TOF data in AxialPos_View order)
+          if (c.backing == "fs" && c.symmetric_ok && !(c.numTof > 1 && c.order == 0))
+            header_roundtrip_offset(c);
+          if (c.symmetric_ok && done % 2 == 0)
+            write_to_file_roundtrip(c, outdir);
+        }
       ++done;
       // keep build/out small
       if (!c.datafile.empty())
